@@ -162,6 +162,8 @@ func (s *Scanner) init(input string) error {
 			return s.error(s.pos, "no input found after delimiter %q", d)
 		}
 		s.input = parts[1]
+		// Statement positions are relative to the original input.
+		s.total = len(parts[0]) + 1
 	}
 	return nil
 }
